@@ -46,6 +46,11 @@ def shards(tier, seed):
     for i in range(2 if q else 6):
         out.append(("concurrent_%d" % i, dict(kind="concurrent", runs=40 if q else 400)))
     out.append(("optimised_interpreter", dict(kind="pyopt", pmax=400 if q else 2000)))
+    # whole shards in child interpreters: warnings as errors (a supported path must not go through a deprecated helper), -bb, -OO + other hash seed
+    out.append(("child_werror_sqrt_small", dict(kind="sqrt_small", pmax=400 if q else 1200, part=0, parts=2, _pyopt="werror")))
+    out.append(("child_werror_sqrt_curve", dict(kind="sqrt_curve", cname="NIST224p", count=20, _pyopt="werror+bb")))
+    out.append(("child_werror_jac_inv", dict(kind="jac_big", count=400, _pyopt="werror")))
+    out.append(("child_werror_inv", dict(kind="inv_big", count=300, _pyopt="werror+opt+hashseed")))
     return out
 
 
